@@ -1,5 +1,6 @@
 // engine.cpp - batches over forked workers, classification of dead workers, ddmin shrinking,
 // replay files, evidence. The only use of real time is the per-unit watchdog and wall_s.
+#include <dlfcn.h>
 #include <errno.h>
 #include <fcntl.h>
 #include <poll.h>
@@ -49,7 +50,12 @@ std::string flavour() {
     return "plain";
 #endif
 }
-std::string replica_dir() { const char* e = getenv("JV_BUILD_DIR"); return std::string(e ? e : "") + "/" + flavour(); }
+std::string replica_dir() { const char* e = getenv("JV_BUILD_DIR"); const char* f = getenv("JV_REPLICA_FLAVOUR"); return std::string(e ? e : "") + "/" + (f ? std::string(f) : flavour()); }
+// source-coverage replicas (bin/coverage.sh): every process that executed library code writes its counters before it leaves through _exit
+static void cov_flush(Replicas& reps) {
+    if (!getenv("JV_REPLICA_FLAVOUR")) return;
+    for (auto r : reps.all) if (r->handle) { auto f = (int (*)(void)) dlsym(r->handle, "jv_cov_flush"); if (f) f(); }
+}
 
 static std::string g_arm_note;
 // All replica sets are loaded through here: the dlopen-ed builds plus the interpreted ARM back ends (C03).
@@ -278,7 +284,7 @@ static IsoResult exec_isolated(const Plan& plan, Replicas& reps, const std::stri
         RunResult r = run_fixed(plan, reps, mode, p, focus, verbose);
         std::string s = result_to_json(r)->dump(false);
         size_t off = 0; while (off < s.size()) { ssize_t w = write(fd[1], s.data() + off, s.size() - off); if (w <= 0) break; off += (size_t) w; }
-        close(fd[1]); _exit(0);
+        close(fd[1]); cov_flush(reps); _exit(0);
     }
     close(fd[1]);
     std::string data; char buf[65536]; double t0 = now_s();
@@ -477,6 +483,7 @@ static void worker_main(int wfd, const std::vector<Unit>& units, size_t from, Ch
         fprintf(out, "R %zu %llu %s\n", u.b, (unsigned long long) u.idx, s.c_str()); fflush(out);
     }
     fprintf(out, "E\n"); fflush(out);
+    cov_flush(reps);
     _exit(0);
 }
 
@@ -549,6 +556,7 @@ int run_check(const std::string& prop, const std::string& tier, uint64_t seed, i
     // Configurations that no longer build from this tree. The adapter's fault: harness problem. A library source's fault: the
     // configuration is broken - a violation for the properties that quantify over configurations, a dropped replica for the others.
     for (auto& nb : reps.not_built) {
+        if (getenv("JV_REPLICA_FLAVOUR")) continue;   // coverage builds have A, B and C only
         std::string txt; read_file(replica_dir() + "/failed_" + nb + ".txt", txt); std::string src = txt.substr(0, txt.find('\n')), first;
         { size_t e = txt.find("error"); if (e != std::string::npos) { size_t ls = txt.rfind('\n', e); ls = ls == std::string::npos ? 0 : ls + 1; size_t le = txt.find('\n', e); first = txt.substr(ls, (le == std::string::npos ? txt.size() : le) - ls); } }
         const char* what = nb == "As" ? "x86-64 asm with -mbmi2 -madx" : nb == "B" ? "portable C++ (-DDISABLE_ASM), 64-bit words" : nb == "C" ? "portable C++ (-DDISABLE_ASM), 32-bit words (-U__SIZEOF_INT128__)" : nb == "G" ? "x86-64 asm built with g++" : nb.c_str();
